@@ -171,3 +171,32 @@ def respell(key, lines, p=0.2):
             out.append(l)
         done = True
     return out
+
+
+VISIBILITIES = ["pub", "pub", "pub(crate)", "", "pub(self)", "pub(in crate::corpus)", "pub(super)"]
+
+
+def visibility(key, p=0.35):
+    """the enum's visibility (the generated iterator / table type inherits it); own PRNG stream. Everything that names the
+    enum lives in the same module, so a private enum works as well as a public one."""
+    if MINIMAL[0]:
+        return "pub"
+    import random
+    r = random.Random("visibility-" + key)
+    if r.random() >= p:
+        return "pub"
+    return r.choice(VISIBILITIES)
+
+
+RAW_IDENTS = ["r#type", "r#match", "r#Move", "r#fn", "r#Box", "r#loop"]
+
+
+def raw_ident(key, p=0.15):
+    """a raw identifier to use as a variant name, or None (own PRNG stream)"""
+    if MINIMAL[0]:
+        return None
+    import random
+    r = random.Random("raw-ident-" + key)
+    if r.random() >= p:
+        return None
+    return r.choice(RAW_IDENTS)
